@@ -370,3 +370,7 @@ def run(sc, choices=None):
 
 def sample_view(sc, r):
     return {"url": build_url(sc), "addresses": sc.get("addrs"), "sockopt": sc.get("sockopt"), "timeout_ticks": sc.get("timeout"), "stdlib_default_timeout_ticks": sc.get("stdlib_default_timeout")}
+
+
+# round 7 summary for the evidence file
+RULE = RULE + "  Round 7: RFC 3986 sub-delims, ':' and '@' in paths; '/', '?', ':', '@', ';', ',', '+' inside queries - the requested resource is the URL's path and query as written."
